@@ -22,9 +22,15 @@ RULE = ("(i) frame monitor around every call: __setattr__/__delattr__ tap on the
         "sequences in which the SAME rating objects are rated again and again (10-120 steps) and every call is compared with "
         "the history-free result for the values the objects held before it; (iv) the same seeded "
         "workload run in subprocesses under several PYTHONHASHSEED values, SHA-256 digests of all returned floats "
-        "compared; (v) schedule monitor: 4-8 real threads x 6-10 calls through one shared model on disjoint ratings, "
+        "compared; (iv-b) PROCESS-ORDER independence: one deterministic list of 1500/20000 calls, each on its own "
+        "freshly constructed model (many configurations, few distinct team and player counts), executed forward, reversed "
+        "and shuffled in SEPARATE processes, per-call digests compared - a cache shared between model instances poisons the "
+        "in-process history-free oracle as well, only a different process history shows it; (v) schedule monitor: 4-8 real threads x 6-10 calls through one shared model on disjoint ratings, "
         "sys.monitoring LINE events log (thread, function, line) and inject time.sleep(0) at statement boundaries with "
-        "p in {0.01,0.05,0.2}, switch interval 1e-5 s; each call compared bit for bit with its history-free result. "
+        "p in {0.01,0.05,0.2}, switch interval 1e-5 s; each call compared bit for bit with its history-free result; and a "
+        "SYSTEMATIC single-preemption sweep: for pairs of conflicting calls (A, B) thread A is suspended at every distinct "
+        "statement boundary it passes through (plus sampled later loop iterations), B runs to completion on the same model, A "
+        "resumes - every interleaving with one preemption of A at statement granularity, both results compared bit for bit. "
         "Non-trivial: a call preceded (sequentially or concurrently) by a call with different per-call options; "
         "distinct by hash of (sequence, position) / (round, thread, position).")
 ASSUMPTIONS = ["thread interleavings are sampled, not enumerated; the write tap detects the mechanism of schedule "
@@ -38,7 +44,8 @@ def floors(tier):
     q = tier == "quick"
     return {"frame/no-write": 6000 if q else 600000, "history-free": 6000 if q else 600000,
             "history-free/feedback": 4000 if q else 400000,
-            "threads/call": 1500 if q else 160000, "hashseed/digest": 3 if q else 20}
+            "threads/call": 1500 if q else 160000, "preempt/run": 3000 if q else 200000, "hashseed/digest": 3 if q else 5,
+            "process-order/call": 2000 if q else 60000}
 
 
 # ------------------------------------------------------------------------------------------- workload
@@ -78,6 +85,17 @@ def generate(ctx):
         cfg["tau"] = cfg["beta"] * ctx.rng.choice([0.02, 0.3, 1.0])
         yield "fb", dict(model=m, cfg=cfg, players=ctx.rng.randint(6, 14), steps=ctx.rng.randint(10, 40 if ctx.tier == "quick" else 120),
                          seed=ctx.rng.randrange(2 ** 31))
+    for _ in range(ctx.budget(40, 2400)):
+        m = ctx.rng.choice(MODEL_NAMES)
+        cfg = gen.gen_cfg(ctx.rng)
+        cfg["tau"] = cfg["beta"] * ctx.rng.choice([0.02, 1, 3])
+        a, b = gen_ops(ctx.rng, cfg, 2, kmax=4, pmax=2)
+        # make the two calls conflict on every per-call value: options, team count, player count
+        if a["op"] == "rate":
+            a["call"] = dict(tau=ctx.rng.choice([0, 3 * cfg["beta"]]), limit_sigma=True)
+        if b["op"] == "rate":
+            b["call"] = dict(tau=ctx.rng.choice([10 * cfg["beta"], 1e-3 * cfg["beta"]]), limit_sigma=False)
+        yield "preempt", dict(model=m, cfg=cfg, a=a, b=b, extra=ctx.rng.randrange(2 ** 30))
     rounds = ctx.budget(60, 6000)
     for _ in range(rounds):
         m = ctx.rng.choice(MODEL_NAMES)
@@ -338,7 +356,78 @@ def probe_fb(ctx, payload):
     ctx.bucket("feedback_sequences", KIND[model_name])
 
 
-PROBES = {"seq": probe_seq, "threads": probe_threads, "fb": probe_fb}
+def probe_preempt(ctx, payload):
+    """systematic single-preemption sweep of call A by a complete call B on one shared model"""
+    from .. import sched
+
+    model_name, cfg, opa, opb = payload["model"], payload["cfg"], payload["a"], payload["b"]
+    Ms = models()
+    install_taps()
+    pre = sched.Preempt()
+    model0 = league.make_model(model_name, cfg, Ms)
+    teams0 = _mk_teams(model0, opa)
+
+    def call(model, teams, op, box):
+        def run():
+            o = observe(model, op["op"], teams, **_kw(op)) if op["op"] == "rate" else observe(model, op["op"], teams)
+            nums = None
+            if o.exc is None:
+                try:
+                    nums = _numbers(op, o.res)
+                except Exception as e:  # noqa: BLE001
+                    o.exc = e
+            box.append((o.exc, nums, list(o.writes), attrs_changed(o)))
+        return run
+
+    box = []
+    trace = pre.trace(call(model0, teams0, opa, box))
+    if not trace:
+        raise Inconclusive("no LINE events observed for call A")
+    _, want_a = oracle(model_name, cfg, opa, Ms)
+    _, want_b = oracle(model_name, cfg, opb, Ms)
+    # preemption points: the first occurrence of every distinct (function, line) + a sample of later occurrences
+    first = {}
+    for i, ev in enumerate(trace):
+        first.setdefault(ev, i + 1)
+    ks = sorted(set(first.values()))
+    rng = random.Random(payload["extra"])
+    later = [i + 1 for i in range(len(trace)) if (i + 1) not in first.values()]
+    ks += rng.sample(later, min(len(later), 25 if ctx.tier == "quick" else 80))
+    pts = ctx.notes.setdefault("preemption_points", [])
+    for k in ks:
+        model = league.make_model(model_name, cfg, Ms)
+        ta, tb = _mk_teams(model, opa), _mk_teams(model, opb)
+        ra, rb = [], []
+        at, errors = pre.run(call(model, ta, opa, ra), k, call(model, tb, opb, rb))
+        if errors or not ra or not rb:
+            raise Inconclusive(f"preemption harness failure: {errors[:2]}")
+        ctx.ev("preempt/run")
+        if at is not None:
+            key = f"{at[0]}:{at[1]}"
+            if key not in pts and len(pts) < 3000:
+                pts.append(key)
+        reg = f"preempt/{opa['op']}x{opb['op']}"
+        for who, (exc, nums, writes, ch), want, op in (("A", ra[0], want_a, opa), ("B", rb[0], want_b, opb)):
+            if exc is not None:
+                ctx.violation("preempt/no-return", "preempt", payload, dict(who=who, k=k, at=at, exc=exc_detail(exc)), model_name, reg)
+                continue
+            if writes or ch:
+                ctx.violation("preempt/model-write", "preempt", payload,
+                              dict(who=who, k=k, at=at, writes=[w[:3] for w in writes[:5]], attrs_changed=ch[:5]), model_name, reg)
+            if not _same(nums, want):
+                ctx.violation("preempt/result", "preempt", payload,
+                              dict(who=who, k=k, suspended_at=at, op=op["op"], call=op.get("call")), model_name, reg)
+        ctx.case(dict(p=payload["extra"], k=k), at is not None)
+    ctx.count("preempt_pairs")
+    ctx.count("preempt_trace_events", len(trace))
+    ctx.bucket("preempt_pair_kinds", f"{opa['op']} x {opb['op']}")
+    if len(ctx.samples) < 5 and ctx.rng.random() < 0.3:
+        ctx.sample(dict(kind="preempt", model=model_name, call_a=dict(op=opa["op"], call=opa.get("call"), n_teams=len(opa["teams"])),
+                        call_b=dict(op=opb["op"], call=opb.get("call"), n_teams=len(opb["teams"])),
+                        trace_events=len(trace), distinct_statement_boundaries=len(first), preempted_runs=len(ks)))
+
+
+PROBES = {"seq": probe_seq, "threads": probe_threads, "fb": probe_fb, "preempt": probe_preempt}
 
 
 # ------------------------------------------------------------------------------------------- hash-seed sweep (driver side)
@@ -358,6 +447,71 @@ def digest_workload(seed, nseq):
     return digest_floats(allnums), len(allnums)
 
 
+def order_workload(seed, ncalls, order):
+    """The same deterministic list of calls (each on its own freshly constructed model: many configurations, few
+    distinct team/player counts so that parameter-blind caches collide), executed in the given order in THIS process;
+    returns {call index: digest of the floats it returned}.  Run in separate processes with different orders: a result
+    that depends on what ran earlier in the process (a cache shared between model instances) differs between orders."""
+    rng = random.Random(f"c14-order/{seed}")
+    Ms = models()
+    calls = []
+    for i in range(ncalls):
+        m = rng.choice(MODEL_NAMES)
+        cfg = gen.gen_cfg(rng)
+        op = gen_ops(rng, cfg, 1, kmax=3, pmax=2)[0]
+        calls.append((m, cfg, op))
+    idx = list(range(ncalls))
+    if order == "reversed":
+        idx.reverse()
+    elif order.startswith("shuffle"):
+        random.Random(order).shuffle(idx)
+    out = {}
+    for i in idx:
+        m, cfg, op = calls[i]
+        model = league.make_model(m, cfg, Ms)
+        o, nums = run_op(model, op)
+        out[str(i)] = digest_floats(nums if nums is not None else [float("nan")])[:16]
+    return out
+
+
+def order_step(tier, seed):
+    ncalls = 1500 if tier == "quick" else 20000
+    orders = ["forward", "reversed", "shuffle-1"] + ([] if tier == "quick" else ["shuffle-2", "shuffle-3"])
+    res = {}
+    for od in orders:
+        env = dict(os.environ, PYTHONHASHSEED="0", PYTHONDONTWRITEBYTECODE="1")
+        p = subprocess.run([sys.executable, "-m", "vmon.checks.c14", "order", str(seed), str(ncalls), od], cwd=VERIF, env=env,
+                           capture_output=True, text=True, timeout=3600)
+        if p.returncode != 0:
+            raise Inconclusive(f"order subprocess failed: {p.stderr[-500:]}")
+        res[od] = json.loads(p.stdout.strip().splitlines()[-1])
+    base = res["forward"]
+    viol = []
+    ndiff = 0
+    for od in orders[1:]:
+        diff = [i for i in base if res[od].get(i) != base[i]]
+        ndiff += len(diff)
+        if diff:
+            viol.append(dict(check="C14", clause="process-order/result", kind="order", payload=dict(seed=seed, ncalls=ncalls, order=od),
+                             detail=dict(order=od, calls_differing=len(diff), first=diff[:5]), model=None, regime=od, seed=seed,
+                             shard=-1, tier=tier))
+    return dict(evals={"process-order/call": ncalls * (len(orders) - 1)}, violations=viol,
+                process_order=dict(orders=orders, calls=ncalls, calls_differing=ndiff))
+
+
+def probe_order(ctx, payload):
+    res = {}
+    for od in ("forward", payload["order"]):
+        env = dict(os.environ, PYTHONHASHSEED="0", PYTHONDONTWRITEBYTECODE="1")
+        p = subprocess.run([sys.executable, "-m", "vmon.checks.c14", "order", str(payload["seed"]), str(payload["ncalls"]), od],
+                           cwd=VERIF, env=env, capture_output=True, text=True, timeout=3600)
+        res[od] = json.loads(p.stdout.strip().splitlines()[-1])
+    diff = [i for i in res["forward"] if res[payload["order"]].get(i) != res["forward"][i]]
+    ctx.ev("process-order/call", payload["ncalls"])
+    if diff:
+        ctx.violation("process-order/result", "order", payload, dict(calls_differing=len(diff), first=diff[:5]), None, payload["order"])
+
+
 def driver_steps(tier, seed, merged):
     seeds = ["0", "1", "2"] if tier == "quick" else ["0", "1", "2", "12345", "random"]
     nseq = 60 if tier == "quick" else 2400
@@ -375,6 +529,14 @@ def driver_steps(tier, seed, merged):
     out["distinct_switch_points"] = len(sp)
     out["distinct_interleaving_signatures"] = len(sg)
     out["switch_point_functions"] = sorted({x.rsplit(":", 1)[0] for x in sp})
+    pp = merged["notes"].get("preemption_points", [])
+    out["distinct_preemption_points"] = len(pp)
+    out["preemption_point_functions"] = sorted({x.rsplit(":", 1)[0] for x in pp})
+    merged["notes"]["preemption_points"] = pp[:60]
+    od = order_step(tier, seed)
+    out["evals"].update(od["evals"])
+    out["violations"].extend(od["violations"])
+    out["process_order"] = od["process_order"]
     merged["notes"]["switch_points"] = sp[:60]
     merged["notes"]["interleaving_signatures"] = sg[:60]
     vals = {d["digest"] for d in digests.values()}
@@ -397,7 +559,10 @@ def probe_hashseed(ctx, payload):
 
 
 PROBES["hashseed"] = probe_hashseed
+PROBES["order"] = probe_order
 
-if __name__ == "__main__":
+if __name__ == "__main__" and sys.argv[1] == "order":
+    print(json.dumps(order_workload(int(sys.argv[2]), int(sys.argv[3]), sys.argv[4])))
+elif __name__ == "__main__":
     d, n = digest_workload(int(sys.argv[1]), int(sys.argv[2]))
     print(json.dumps(dict(digest=d, floats=n, hashseed=os.environ.get("PYTHONHASHSEED"))))
